@@ -154,4 +154,21 @@ theorem unguarded_cycle_no_rank {G : CG} (a : Nat) (mid : List Nat)
     exact absurd h (Nat.lt_irrefl _)
   · simpa using hok
 
+/-- what `balanced` buys: along any sequence of completed paths the counter never ends above its starting value by
+    more than zero, i.e. the net amount given back never exceeds the amount taken -/
+theorem balanced_no_excess_release : ∀ (ps : List PathCount), balanced ps = true →
+    (ps.map (·.releases)).sum ≤ (ps.map (·.charges)).sum
+  | [], _ => by simp
+  | p :: ps, h => by
+    unfold balanced at h
+    rw [List.all_cons, Bool.and_eq_true] at h
+    have ih := balanced_no_excess_release ps h.2
+    have hp : p.releases ≤ p.charges := by
+      have := h.1
+      unfold pathOK at this
+      rw [Bool.and_eq_true] at this
+      exact of_decide_eq_true this.1
+    simp only [List.map_cons, List.sum_cons]
+    omega
+
 end JanetModel.Depth
